@@ -28,7 +28,7 @@ const (
 // Props lists the generated checks of C07.
 func Props() []kit.Runner {
 	return []kit.Runner{
-		kit.Prop[Case]{ID: "C07", Name: "structured", Rule: ruleStructured, Quick: 50000, Thorough: 1000000,
+		kit.Prop[Case]{ID: "C07", Name: "structured", Rule: ruleStructured, Quick: 50000, Thorough: 600000,
 			Gen: Gen, Check: Check, Classify: Classify},
 		kit.Prop[Case]{ID: "C07", Name: "qorder", Rule: ruleQOrder, Quick: 20000, Thorough: 200000,
 			Gen: GenQOrder, Check: Check, Classify: Classify},
